@@ -398,17 +398,17 @@ Definition fmt_ok (s : shape) (fmt : list string) : bool :=
   | _ => match render fmt ["1"%string; "1"%string] with Some _ => true | None => false end
   end.
 
-(* [fixD2 = false]: the code as it is — 'combinations_with_replacement' is spelled
+(* [fix2 = false]: the code as it is — 'combinations_with_replacement' is spelled
    '..._replacements' in WordOfIndicesVariables.__init__, so the enumerator is never
    bound: UnboundLocalError *)
-Definition create (fixD2 : bool) (g : group) : creation :=
+Definition create (fix2 : bool) (g : group) : creation :=
   if negb (fmt_ok (g_shape g) (g_fmt g)) then CrValueError else
   match g_shape g with
   | Single => Created
   | Block ranges => if Nat.eqb (List.length ranges) 0 then CrValueError
                     else if forallb (fun r => 0 <=? r) ranges then Created else CrValueError
   | Words kind n k => if (n <? 0) || (k <? 0) then CrValueError
-                      else match kind with WCombRepl => if fixD2 then Created else CrCrash | _ => Created end
+                      else match kind with WCombRepl => if fix2 then Created else CrCrash | _ => Created end
   | UMap n m => if (n <? 0) || (m <? 0) then CrValueError else Created
   | BinMap n m => if (m <? 1) || (n <? 1) then CrValueError else Created
   | _ => Created
@@ -440,10 +440,17 @@ Definition add_variable_group (st : vstate) (off : Z) (g : group) : vstate * out
   else if off + 1 <=? numvar st then (st, ValueError)
   else (mkstate (Z.max (numvar st) (off + n)) (groups st ++ [(off, g)]) (clauses st), Allocated off).
 
-Definition step (fixD2 : bool) (st : vstate) (o : op) : vstate * outcome :=
+(* which of the known defects are repaired in the modelled code: all false = the code as it is.
+   fixD2: spelling of 'combinations_with_replacement'; fixD34: add_clause checks before it appends
+   (fixD3, the label enumeration, is a parameter of all_variable_labels) *)
+Record variant := mkvariant { fixD2 : bool; fixD34 : bool }.
+Definition as_is : variant := mkvariant false false.
+Definition repaired : variant := mkvariant true true.
+
+Definition step (v : variant) (st : vstate) (o : op) : vstate * outcome :=
   match o with
   | NewGroup g =>
-      match create fixD2 g with
+      match create (fixD2 v) g with
       | Created => add_variable_group st (numvar st) g
       | CrValueError => (st, ValueError)
       | CrCrash => (st, Crash)
@@ -451,23 +458,23 @@ Definition step (fixD2 : bool) (st : vstate) (o : op) : vstate * outcome :=
   | AddClause c checked =>
       let st1 := mkstate (numvar st) (groups st) (clauses st ++ [c]) in
       if checked then
-        (* the clause is appended BEFORE it is checked *)
         if lits_ok c then (mkstate (Z.max (numvar st) (max_var_clause c)) (groups st) (clauses st ++ [c]), Done)
-        else (st1, ValueError)
+        else if fixD34 v then (st, ValueError)
+        else (st1, ValueError)      (* the code as it is: the clause is appended BEFORE it is checked *)
       else (st1, Done)
   | RaiseNumvar k =>
       if k <? 0 then (st, ValueError)
       else (mkstate (Z.max (numvar st) k) (groups st) (clauses st), Done)
   end.
 
-Definition run (fixD2 : bool) (st : vstate) (ops : list op) : vstate :=
-  fold_left (fun s o => fst (step fixD2 s o)) ops st.
+Definition run (v : variant) (st : vstate) (ops : list op) : vstate :=
+  fold_left (fun s o => fst (step v s o)) ops st.
 
 (* per-step trace for the correspondence run *)
-Fixpoint trace (fixD2 : bool) (st : vstate) (ops : list op) : list (vstate * outcome) :=
+Fixpoint trace (v : variant) (st : vstate) (ops : list op) : list (vstate * outcome) :=
   match ops with
   | [] => []
-  | o :: t => let r := step fixD2 st o in r :: trace fixD2 (fst r) t
+  | o :: t => let r := step v st o in r :: trace v (fst r) t
   end.
 
 (* ---------- all_variable_labels ---------- *)
